@@ -47,10 +47,13 @@ Fixpoint rem (x : N) (s : list N) : list N :=
 
 (* Pinned: before 5522a98 (no index reconciliation).  Head: /repo as it is (5522a98, 58d6be9).
    Current: Head + fixes/C07-register-replace-shared-stream.diff (Register of an existing ConnID whose replacement wraps
-   the same stream drops the old record without closing that stream, and a replacement never triggers limit eviction). *)
-Inductive variant := Pinned | Current | Head.
+   the same stream drops the old record without closing that stream, and a replacement never triggers limit eviction).
+   Head2: Head + c61cb06 (the tree as it is now).  Current additionally has fixes/C07-updateauth-evicts-atomically.diff:
+   UpdateAuth removes, in its own critical section, the connection the client id resolves to before indexing the new one. *)
+Inductive variant := Pinned | Current | Head | Head2.
 Definition reconciles (v : variant) : bool := match v with Pinned => false | _ => true end.
-Definition keeps_shared (v : variant) : bool := match v with Current => true | _ => false end.
+Definition keeps_shared (v : variant) : bool := match v with Current | Head2 => true | _ => false end.
+Definition evicts (v : variant) : bool := match v with Current => true | _ => false end.
 
 (* connection/types.go ControlConnection (the fields the registry reads) *)
 Record ctl := { c_cid : N; c_auth : bool; c_seq : N (* CreatedAt order *); c_last : N (* LastActiveAt *) }.
@@ -155,14 +158,26 @@ Definition reconcile (v : variant) (c : N) (s : st) : st :=
     match get c (reg s) with Some r => with_idx s (drop_stale c r (idx s)) | None => s end
   else s.
 
-(* UpdateAuth(connID, clientID, userID) *)
-Definition update_auth (v : variant) (c x : N) (s : st) : st :=
+(* UpdateAuth(connID, clientID, userID): fields, dropStaleIndexLocked, index *)
+Definition update_auth_core (v : variant) (c x : N) (s : st) : st :=
   match get c (reg s) with
   | None => s
   | Some r =>
       let r' := {| c_cid := x; c_auth := true; c_seq := c_seq r; c_last := c_last r |} in
       let i := if reconciles v then drop_stale c r' (idx s) else idx s in
       with_idx (with_reg s (set c r' (reg s))) (set x c i)
+  end.
+(* the connection client id x currently resolves to, if it is not c, is removed (removeConnectionLocked) *)
+Definition evict_holder (x c : N) (s : st) : st :=
+  match get x (idx s) with
+  | Some o => if o =? c then s else registry_remove o s
+  | None => s
+  end.
+(* Current: eviction of the previous holder and indexing of the new connection are ONE critical section *)
+Definition update_auth (v : variant) (c x : N) (s : st) : st :=
+  match get c (reg s) with
+  | None => s
+  | Some _ => update_auth_core v c x (if evicts v then evict_holder x c s else s)
   end.
 
 Definition bump (s : st) : st := {| streams := streams s; sess := sess s; reg := reg s; idx := idx s; tun := tun s; tmap := tmap s;
